@@ -1,12 +1,39 @@
-import PcfgVerif.Model.OmenTrainer
-/-! C18 — (theorems relating trainer / scorer / guesser tables are added when proved) -/
+import PcfgVerif.Properties.OmenTrainCore
+/-!
+# C18 — the saved OMEN keyspace is the number of guesses a level really produces
+
+`levelKeyspace` is what `calc_omen_keyspace` adds up for one level (`recKeyspace` = `_rec_calc_keyspace`
+without its memo table; `ksRow` = the memoised form).  The saved probability `(count/N)/keyspace` is
+arithmetic on these numbers (compared exactly by the harness).
+-/
 namespace Pcfg.C18
 open Omen
 
-/-- strings shorter than the n-gram size or longer than the length table have no level -/
-theorem C18_out_of_range (t : TTables) (s : Str) (h : s.length < t.ngram ∨ s.length > t.lns.length) :
-    t.trainerLevel s = none ∧ t.scorerLevel s = none := by
-  unfold TTables.trainerLevel TTables.scorerLevel
-  rcases h with h | h <;> simp [h]
+/-- the recorded keyspace of a level = the number of guesses the generator emits at that level -/
+theorem C18_keyspace (t : TTables) (hwf : t.WF) (level : Nat)
+    (s0 : CState) (hs : t.toTables.start = some s0) :
+    ∃ N, ∀ fuel, N ≤ fuel → (t.toTables.enumFrom level fuel s0).length = t.levelKeyspace level :=
+  levelKeyspace_eq_emitted t hwf level s0 hs
+
+/-- per (length, initial n-gram) block the recursion counts the parse trees -/
+theorem C18_block (t : TTables) (hwf : t.WF) (len : Nat) (ip : Str) (level : Nat) :
+    t.recKeyspace len ip level = (t.toTables.m.allTrees len ip level).length :=
+  recKeyspace_eq_allTrees t hwf len ip level
+
+/-- the memo table changes nothing -/
+theorem C18_memo (t : TTables) (hwf : t.WF) (maxL len : Nat) (ip : Str) (level : Nat)
+    (hl : level ≤ maxL) (hip : ip ∈ t.entries.map (·.key)) :
+    lookupRow (t.ksRow maxL len) ip level = t.recKeyspace len ip level :=
+  lookupRow_ksRow t hwf maxL len ip level hl hip
+
+/-- every level `calc_omen_keyspace` lists carries its full keyspace (also the one at which the limit is
+exceeded), levels are consecutive, and only the last one may exceed the limit -/
+theorem C18_listing (t : TTables) (maxKeyspace fuel first : Nat) :
+    (∀ p ∈ t.calcKeyspace maxKeyspace fuel first, p.2 = t.levelKeyspace p.1) ∧
+    (t.calcKeyspace maxKeyspace fuel first).map (·.1) =
+      (List.range (t.calcKeyspace maxKeyspace fuel first).length).map (· + first) ∧
+    (∀ (i : Nat) p, (t.calcKeyspace maxKeyspace fuel first)[i]? = some p →
+      i + 1 < (t.calcKeyspace maxKeyspace fuel first).length → p.2 ≤ maxKeyspace) :=
+  calcKeyspace_spec t maxKeyspace fuel first
 
 end Pcfg.C18
